@@ -120,6 +120,8 @@ class ExprGen:
         if self.rich and allow_mark and r < 0.2:
             # a counterfactual variable of its own (long-form terms mix worlds), with or without a value mark, 1..3 interventions
             others = [n for n in self.names if n != name]
+            if self.rng.random() < 0.15:
+                others = list(self.names)      # X @ X: a variable intervened on itself
             if others:
                 base = Variable(name) if self.rng.random() < 0.5 else (+Variable(name) if self.rng.random() < 0.5 else -Variable(name))
                 ivs = [(+Variable(n) if self.rng.random() < 0.3 else Variable(n)) for n in self.rng.sample(others, min(len(others), self.rng.randint(1, 3)))]
@@ -155,6 +157,8 @@ class ExprGen:
             builder = PP[Variable(rng.choice(["S", "T"]))]
         if self.rich and rng.random() < 0.15:
             others = [n for n in self.names if n not in chosen]
+            if rng.random() < 0.3:
+                others = list(self.names)      # an intervention on a variable of the distribution itself: P[X](X, Y) is P(X @ X, Y @ X)
             if others:
                 ivs = rng.sample(others, min(len(others), rng.randint(1, 2)))
                 ivars = [(+Variable(n) if rng.random() < 0.3 else Variable(n)) for n in ivs]
